@@ -271,3 +271,33 @@ package network
 //@     invariant forall b :: b != base(s.neuronSignals) && b != base(s.neuronSignalsBeingProcessed) ==> Mem[float64][b] == old(Mem[float64][b])
 //@     invariant forall b :: b != base(s.activated) && b != base(s.inActivation) ==> Mem[bool][b] == old(Mem[bool][b])
 //@     invariant !old(s.activated[currentNode])
+
+// ---- C12 (construction): the bias weights the fast solver is built with --------------------------------
+// biasIn(links, k) = sum of the weights of those among the first k incoming links whose source is a bias neuron (NeuronType 3).
+//@ ufunc biasIn((Array Int Int), Int, Int, (Array Int Int), (Array Int Int), (Array Int Float)) Float
+//@ smtdef real: (define-fun-rec biasIn ((c (Array Int Int)) (o Int) (k Int) (IN (Array Int Int)) (NT (Array Int Int)) (W (Array Int Real))) Real (ite (<= k 0) 0.0 (+ (biasIn c o (- k 1) IN NT W) (ite (= (select NT (select IN (select c (+ o (- k 1))))) 3) (select W (select c (+ o (- k 1)))) 0.0))))
+//@ spec biasUpTo(ne *NNode, k int) real = biasIn(arrOf(ne.Incoming), off(ne.Incoming), k, heapOf(Link.InNode), heapOf(NNode.NeuronType), heapOf(Link.ConnectionWeight))
+//@ pred nodesForSolver(nList []*NNode) = forall i :: 0 <= i && i < len(nList) ==> nList[i] != nil && (forall j :: 0 <= j && j < len(nList[i].Incoming) ==> nList[i].Incoming[j] != nil && nList[i].Incoming[j].InNode != nil)
+//@ func (*Network).processIncomingConnections
+//@   props C12
+//@   requires n != nil && neuronLookup != nil && nodesForSolver(nList)
+//@   requires [slots] forall i :: 0 <= i && i < len(nList) && mapHas(neuronLookup, nList[i].Id) ==> 0 <= neuronLookup[nList[i].Id] && neuronLookup[nList[i].Id] < len(biases)
+//@   requires [ownSlot] forall i, j :: 0 <= i && i < j && j < len(nList) ==> neuronLookup[nList[i].Id] != neuronLookup[nList[j].Id]
+//@   modifies Mem[float64]
+//@   ensures [bias] result1 == nil ==> (forall i :: 0 <= i && i < len(nList) ==> biases[neuronLookup[nList[i].Id]] == old(biases[neuronLookup[nList[i].Id]]) + biasUpTo(nList[i], len(nList[i].Incoming)))
+//@   ensures [others] forall t :: 0 <= t && t < len(biases) && (forall i :: 0 <= i && i < len(nList) ==> neuronLookup[nList[i].Id] != t) ==> biases[t] == old(biases[t])
+//@   ensures [frame] forall b :: b != base(biases) ==> Mem[float64][b] == old(Mem[float64][b])
+//@   loop 1:
+//@     invariant -1 <= #idx && #idx < len(nList) && fresh(connections)
+//@     invariant [done] forall i :: 0 <= i && i <= #idx ==> biases[neuronLookup[nList[i].Id]] == old(biases[neuronLookup[nList[i].Id]]) + biasUpTo(nList[i], len(nList[i].Incoming))
+//@     invariant [todo] forall i :: #idx < i && i < len(nList) ==> biases[neuronLookup[nList[i].Id]] == old(biases[neuronLookup[nList[i].Id]])
+//@     invariant [others] forall t :: 0 <= t && t < len(biases) && (forall i :: 0 <= i && i < len(nList) ==> neuronLookup[nList[i].Id] != t) ==> biases[t] == old(biases[t])
+//@     invariant [frame] forall b :: b != base(biases) ==> Mem[float64][b] == old(Mem[float64][b])
+//@     invariant [connFrame] forall b :: wasAllocated(b) ==> Mem[*FastNetworkLink][b] == old(Mem[*FastNetworkLink][b])
+//@   loop 2:
+//@     invariant -1 <= #idx && #idx < len(ne.Incoming) && ok && fresh(connections) && 0 <= #idx1 && #idx1 < len(nList) && ne == nList[#idx1] && targetIndex == neuronLookup[ne.Id] && 0 <= targetIndex && targetIndex < len(biases)
+//@     invariant [current] biases[targetIndex] == old(biases[targetIndex]) + biasUpTo(ne, #idx + 1)
+//@     invariant [done] forall i :: 0 <= i && i < len(nList) && nList[i] != ne && neuronLookup[nList[i].Id] != targetIndex ==> biases[neuronLookup[nList[i].Id]] == (i < #idx1 ? old(biases[neuronLookup[nList[i].Id]]) + biasUpTo(nList[i], len(nList[i].Incoming)) : old(biases[neuronLookup[nList[i].Id]]))
+//@     invariant [others] forall t :: 0 <= t && t < len(biases) && (forall i :: 0 <= i && i < len(nList) ==> neuronLookup[nList[i].Id] != t) ==> biases[t] == old(biases[t])
+//@     invariant [frame] forall b :: b != base(biases) ==> Mem[float64][b] == old(Mem[float64][b])
+//@     invariant [connFrame] forall b :: wasAllocated(b) ==> Mem[*FastNetworkLink][b] == old(Mem[*FastNetworkLink][b])
